@@ -441,6 +441,107 @@ theorem instance_material_valid_src (c : Call) (hc : c ∈ calls) (hs : c.site =
         · rw [hI x h]; decide) hE
   simp only [hm, hb]
   exact instance_material_valid name wanted B I E hB hI hE hW
+
+theorem call_of_site (c : Call) (hc : c ∈ calls) (d : Call) (hd : d ∈ calls) (hs : c.site = d.site) : c = d := by
+  simp only [calls, List.mem_cons, List.mem_nil_iff, or_false] at hc hd
+  rcases hc with h | h | h | h | h | h | h | h | h | h <;> subst h <;>
+    rcases hd with h | h | h | h | h | h | h | h | h | h <;> subst h <;> first | rfl | (exfalso; revert hs; decide)
+
+theorem managedPred_only1 (t : String) (name : α → String) :
+    managedPred (Managed.only [t]) name = fun x => name x == t := by
+  funext x
+  simp only [managedPred, List.contains_cons, List.contains_nil, Bool.or_false]
+
+/-- `profile_valid_after_save` with the arguments of the call taken from the source -/
+theorem profile_valid_after_save_src (c : Call) (hc : c ∈ calls) (hs : c.site = "material.Effect.save#1")
+    (name : α → String) (wanted A M X : List α) (t : α)
+    (hA : A = [] ∨ ∃ a, A = [a] ∧ name a = "asset") (hM : ∀ x ∈ M, name x = "image" ∨ name x = "newparam")
+    (ht : name t = "technique") (hX : ∀ x ∈ X, name x = "extra") (hW : ∀ x ∈ wanted, name x = "newparam") :
+    cm_effect_profile_COMMON.rmatch
+      ((syncChildren (managedPred c.managed name) wanted (A ++ M ++ [t] ++ X) (firstNamed c.before name (A ++ M ++ [t] ++ X))).map name) = true := by
+  have hcall := call_of_site c hc _ calls_in_source.2.2.2.2 hs
+  subst hcall
+  have hb : firstNamed (some "technique") name (A ++ M ++ [t] ++ X) = some t := by
+    have := firstNamed_block "technique" name (A ++ M) ([t])
+      (fun x hx => by
+        rcases List.mem_append.1 hx with h | h
+        · rcases hA with rfl | ⟨a, rfl, ha⟩
+          · cases h
+          · simp at h; rw [h, ha]; decide
+        · rcases hM x h with h' | h' <;> (rw [h']; decide))
+      (fun x hx => by simp at hx; rw [hx]; exact ht)
+    unfold firstNamed at this ⊢
+    simp only at this ⊢
+    rw [List.find?_append, this]
+    simp
+  simp only [managedPred_only1, hb]
+  exact profile_valid_after_save name wanted A M X t hA hM ht hX hW
+
+/-- `mesh_valid_after_save` with the arguments of both calls taken from the source -/
+theorem mesh_valid_after_save_src (c0 c1 : Call) (h0 : c0 ∈ calls) (h1 : c1 ∈ calls)
+    (hs0 : c0.site = "geometry.Geometry.save#0") (hs1 : c1.site = "geometry.Geometry.save#1")
+    (name : α → String) (S S' P P' X : List α) (v : α)
+    (hS : ∀ x ∈ S, name x = "source") (hS' : ∀ x ∈ S', name x = "source") (hv : name v = "vertices")
+    (hP : ∀ x ∈ P, name x ∉ ["source", "vertices", "extra"]) (hP' : ∀ x ∈ P', name x ∈ primitiveTags)
+    (hX : ∀ x ∈ X, name x = "extra") (hne : S' ≠ []) :
+    let m1 := syncChildren (managedPred c0.managed name) S' (S ++ [v] ++ P ++ X) (firstNamed c0.before name (S ++ [v] ++ P ++ X))
+    cm_geometry_mesh.rmatch ((syncChildren (managedPred c1.managed name) P' m1 (firstNamed c1.before name m1)).map name) = true := by
+  have e0 := call_of_site c0 h0 _ calls_in_source.2.1 hs0
+  have e1 := call_of_site c1 h1 _ calls_in_source.2.2.1 hs1
+  subst e0; subst e1
+  have hb0 : firstNamed (some "vertices") name (S ++ [v] ++ P ++ X) = some v := by
+    have := firstNamed_block "vertices" name S [v] (fun x hx => by rw [hS x hx]; decide) (fun x hx => by simp at hx; rw [hx]; exact hv)
+    unfold firstNamed at this ⊢
+    simp only at this ⊢
+    rw [List.append_assoc, List.append_assoc, List.find?_append]
+    rw [List.find?_append] at this
+    cases hf : S.find? (fun c => name c == "vertices") with
+    | some y => rw [hf] at this; simp at this; simp [hf, this]
+    | none => simp [hv]
+  have hP'' : ∀ x ∈ P', name x ∉ ["source", "vertices", "extra"] := by
+    intro x hx hin
+    have := hP' x hx
+    simp only [primitiveTags, List.mem_cons, List.mem_nil_iff, or_false] at this hin
+    rcases this with h | h | h | h | h | h | h <;> rw [h] at hin <;> simp at hin
+  intro m1
+  have hm1 : m1 = S' ++ ([v] ++ P ++ X) := by
+    have h := mesh_children_after_save name S S' P [] X v hS hS' hv hP (by simp) hX
+    -- the first reconciliation alone
+    show syncChildren (managedPred (Managed.only ["source"]) name) S' (S ++ [v] ++ P ++ X) (firstNamed (some "vertices") name (S ++ [v] ++ P ++ X)) = _
+    rw [managedPred_only1, hb0]
+    have := Pyc.Props.C02.sync_block (fun c => name c == "source") S' [] S ([v] ++ P ++ X)
+      (by simp) (fun c hc => by simp [isM, hS c hc])
+      (fun c hc => by
+        have hne' : name c ≠ "source" := by
+          simp only [List.mem_append, List.mem_singleton] at hc
+          rcases hc with (rfl | hc) | hc
+          · rw [hv]; decide
+          · intro h'; exact hP c hc (by simp [h'])
+          · rw [hX c hc]; decide
+        have : c ∉ S' := fun hm => hne' (hS' c hm)
+        simp [isM, hne', this])
+      (by simp)
+    simpa [List.append_assoc] using this
+  have hb1 : firstNamed (some "extra") name m1 = X.head? := by
+    rw [hm1]
+    have := firstNamed_block "extra" name (S' ++ [v] ++ P) X
+      (fun x hx => by
+        simp only [List.mem_append, List.mem_singleton] at hx
+        rcases hx with (hx | rfl) | hx
+        · rw [hS' x hx]; decide
+        · rw [hv]; decide
+        · intro h'; exact hP x hx (by simp [h']))
+      hX
+    simpa [List.append_assoc] using this
+  have hmp : managedPred (Managed.allBut ["source", "vertices", "extra"]) name
+      = fun c => !(["source", "vertices", "extra"].contains (name c)) := rfl
+  rw [hb1, hmp]
+  have hfin := mesh_valid_after_save name S S' P P' X v hS hS' hv hP hP' hX hne
+  have hm1' : m1 = syncChildren (fun c => name c == "source") S' (S ++ [v] ++ P ++ X) (some v) := by
+    show syncChildren (managedPred (Managed.only ["source"]) name) S' (S ++ [v] ++ P ++ X) (firstNamed (some "vertices") name (S ++ [v] ++ P ++ X)) = _
+    rw [managedPred_only1, hb0]
+  rw [hm1']
+  exact hfin
 end
 
 end Pyc.Props.C04
